@@ -10,6 +10,7 @@ MCInitBands  == (0 :> [head |-> TRUE, tail |-> TRUE, refs |-> {"x"}]) @@
 MCInitBlocks == {"x", "y", "w"}
 MCNeed1      == ("bk" :> <<"x", "w", "z">>)
 MCChoices    == {{}, {0}, {1}, {0, 1}}
+MCChoicesSmall == {{}, {0}}
 
 \* race of two backups with differing sources on the same archive
 MCNeed2      == ("bk1" :> <<"y", "z">>) @@ ("bk2" :> <<"x", "v">>)
